@@ -91,8 +91,9 @@ Section DapSpec.
         end
     end.
 
-  (* client discipline assumed by the breakpoint theorem: step commands and setBreakpoints are only sent while the
-     published state is Stopped (what a DAP client does: both are offered for a stopped thread) *)
+  (* client discipline assumed by the breakpoint theorem: step commands are only sent while the published state is
+     Stopped, setBreakpoints only while it is not Running (before configurationDone, or stopped) -- what a DAP client
+     does.  (A setBreakpoints that races the running machine cannot promise anything about the instruction in flight.) *)
   Fixpoint disciplined (p : protocol) (tr : list action) (s : st) : bool :=
     match tr with
     | [] => true
@@ -101,10 +102,15 @@ Section DapSpec.
         | None => true
         | Some (s', _) =>
             match a with
-            | S_req (RStep _) | S_req (RSetBps _) =>
+            | S_req (RStep _) =>
                 match rs s with Stopped _ => disciplined p tr' s' | _ => false end
+            | S_req (RSetBps _) =>
+                match rs s with Running => false | _ => disciplined p tr' s' end
             | _ => disciplined p tr' s'
             end
         end
     end.
+
+  (* no instruction jumps to itself (a `jmp *` loop): the guard of the breakpoint theorem *)
+  Definition no_self_loop : Prop := forall c, fin c = false -> pc (step c) <> pc c.
 End DapSpec.
